@@ -1,10 +1,9 @@
 (* C15, grammar, tag level: every attribute-list tag Marshal prints for a valid value is
    "#TAG:" ++ NAME=value[,NAME=value]* ++ "\n" with a non-empty list, names free of '=' and
    blanks, quoted values free of quotes, unquoted values free of commas, nothing containing
-   CR or LF - except EXT-X-SERVER-CONTROL without CAN-BLOCK-RELOAD (finding F4 (c)), whose
-   list starts with a comma. *)
+   CR or LF. *)
 From Coq Require Import List ZArith Bool String Ascii Lia.
-From GoHls Require Import Model.PlaylistBase Model.PlaylistIdeal Model.Playlist Model.PlaylistSpec
+From GoHls Require Import Model.PlaylistBase Model.Playlist Model.PlaylistSpec
   Proofs.PlaylistStr Proofs.PlaylistNum Proofs.PlaylistAttrs Proofs.PlaylistTags Proofs.PlaylistTagsMulti.
 Import ListNotations.
 Local Open Scope string_scope.
@@ -30,7 +29,7 @@ Theorem tag_lines_are_attribute_lists :
   /\ (forall t, wf_variant t = true ->
         exists l, l <> [] /\ forallb attr_ok2 l = true
                   /\ variant_marshal orc t = "#EXT-X-STREAM-INF:" ++ render_attrs l ++ lf ++ v_uri t ++ lf)
-  /\ (forall t, wf_server_control t = true -> sc_canblockreload t = true ->
+  /\ (forall t, wf_server_control t = true ->
         attr_line "#EXT-X-SERVER-CONTROL:" (server_control_marshal orc t)).
 Proof.
   repeat split; intros t H.
@@ -44,17 +43,9 @@ Proof.
   - exists (hint_attrs t). split; [discriminate|]. split; [apply hint_attrs_ok; auto|apply hint_marshal_render].
   - exists (rendition_attrs t). split; [discriminate|]. split; [apply rendition_attrs_ok; auto|apply rendition_marshal_render].
   - exists (variant_attrs orc t). split; [discriminate|]. split; [apply variant_attrs_ok; auto|apply variant_marshal_render].
-  - intros Hc. exists (sc_attrs orc t). split; [|split; [apply sc_attrs_ok; auto|apply server_control_marshal_render]].
-    unfold sc_attrs, sc_items, opt_list. rewrite Hc. discriminate.
+  - exists (sc_attrs orc t). split; [|split; [apply sc_attrs_ok; auto|apply server_control_marshal_render]].
+    unfold wf_server_control in H. split_and H. unfold sc_attrs, opt_list.
+    destruct (sc_canblockreload t), (sc_partholdback t), (sc_canskipuntil t); discriminate.
 Qed.
 
 End WithOracles.
-
-(* finding F4 (c) as a grammar defect: a valid value whose attribute list starts with a comma *)
-Lemma grammar_refuted_server_control :
-  exists t, wf_server_control t = true
-            /\ server_control_marshal z_oracles t = "#EXT-X-SERVER-CONTROL:,PART-HOLD-BACK=1.00000" ++ lf.
-Proof.
-  exists {| sc_canblockreload := false; sc_partholdback := Some 1000000000; sc_canskipuntil := None |}.
-  vm_compute. auto.
-Qed.
